@@ -53,33 +53,40 @@ theorem concatCounts_injective_modP (t e s t' e' s' : UInt64) (d d' : Nat)
     t = t' ∧ e = e' ∧ s = s' ∧ (d = 1 ↔ d' = 1) :=
   concatCounts_modP_inj t e s t' e' s' d d' h
 
-/-- The protocol version enters the block hash as `felt.SetBytes(string)`, i.e. REDUCED modulo the
-Stark prime. PARTIAL: two version strings `ParseBlockVersion` accepts and that have the same reduced
-value are the same string only if both are at most 31 bytes long (then nothing wraps) … -/
-theorem version_string_committed_partial (x y : UInt8) (as bs : Bytes) (v w : Ver)
-    (hv : parseVersion (x :: as) = some v) (hw : parseVersion (y :: bs) = some w)
-    (hl : (x :: as).length ≤ 31) (hl' : (y :: bs).length ≤ 31)
-    (h : bytesToNat (x :: as) % starkPrime = bytesToNat (y :: bs) % starkPrime) : x :: as = y :: bs := by
-  rw [Nat.mod_eq_of_lt (bytesToNat_lt_prime_of_short _ hl), Nat.mod_eq_of_lt (bytesToNat_lt_prime_of_short _ hl')] at h
-  exact bytesToNat_inj_of_nonzero_head x y as bs (parseVersion_head x as v hv) (parseVersion_head y bs w hw) h
-
-/-- … DEFECT WITNESS (the full statement, without the length bound, is false): `ParseBlockVersion`
-ignores everything after the third dot-separated part and accepts strings of any length, so a
-40-byte string starting `0.14.1.` has the same hashed value as `0.14.0` — and even parses to another
-protocol version. Harness: known finding `long-protocol-version-wraps-mod-p`. -/
-theorem version_string_wrap_accepted : versionLengthLimited = false →
-    ∃ a b v w, parseVersion a = some v ∧ parseVersion b = some w ∧ versionSupported b = true ∧
-      bytesToNat a % starkPrime = bytesToNat b % starkPrime ∧ a ≠ b ∧ v ≠ w := by
-  first
-  | (intro h; exact absurd h (by decide))
-  | (intro _
-     exact ⟨asciiBytes "0.14.0", wrapWitness, ⟨0, 14, 0⟩, ⟨0, 14, 1⟩, by decide, by decide, by decide, by decide, by decide, by decide⟩)
-
-/-- … and the block hash does not see the difference (0.13.4+ format; the same holds for 0.13.2). -/
-theorem exception_long_version_same_block_hash (b : Block) (sd : StateDiff) (v' : Bytes)
-    (h : bytesToNat v' % starkPrime = bytesToNat b.header.version % starkPrime) :
-    post0134 { b with header := { b.header with version := v' } } sd = post0134 b sd :=
-  post0134_version_only_modP b sd v' h
+/-- The protocol version enters the block hash as `felt.SetBytes(string)`, i.e. REDUCED modulo the Stark
+prime. For the code as it is (since 2e0402b `ParseBlockVersion` rejects strings of more than 31 bytes,
+so nothing wraps): two version strings that `ParseBlockVersion` accepts — every block that is accepted has
+one, `verifyBlockSuccession` and `BlockHash` both parse it — and that have the same hashed value are the
+same string. Full strength; the counterexample for the code before the fix is
+`Regression.version_string_wrap_accepted_before_2e0402b`. -/
+theorem version_string_committed (a b : Bytes) (v w : Ver)
+    (hv : parseVersion a = some v) (hw : parseVersion b = some w)
+    (h : bytesToNat a % starkPrime = bytesToNat b % starkPrime) : a = b := by
+  have la := parseVersion_short a v (by decide) hv
+  have lb := parseVersion_short b w (by decide) hw
+  rw [Nat.mod_eq_of_lt (bytesToNat_lt_prime_of_short _ la), Nat.mod_eq_of_lt (bytesToNat_lt_prime_of_short _ lb)] at h
+  cases a with
+  | nil =>
+    cases b with
+    | nil => rfl
+    | cons y bs =>
+      have hy := parseVersion_head y bs w hw
+      have := bytesToNat_lower y bs hy
+      have hp : 0 < 256 ^ bs.length := Nat.pow_pos (by decide)
+      have h0 : bytesToNat ([] : Bytes) = 0 := rfl
+      rw [h0] at h
+      omega
+  | cons x as =>
+    cases b with
+    | nil =>
+      have hx := parseVersion_head x as v hv
+      have := bytesToNat_lower x as hx
+      have hp : 0 < 256 ^ as.length := Nat.pow_pos (by decide)
+      have h0 : bytesToNat ([] : Bytes) = 0 := rfl
+      rw [h0] at h
+      omega
+    | cons y bs =>
+      exact bytesToNat_inj_of_nonzero_head x y as bs (parseVersion_head x as v hv) (parseVersion_head y bs w hw) h
 
 /-- `dataAvailabilityMode(fee, nonce)` is injective over `uint32²`. -/
 theorem daMode_injective (f n f' n' : UInt32) (h : daMode f n = daMode f' n') : f = f' ∧ n = n' :=
